@@ -187,6 +187,23 @@ def spec(c, io, mo):
     if problems:
         c['_class'] = 'invariant'
         return problems[0]
+    # the count as the library runs it itself (evaluate -> nth_count) must end where the count-by-count run above ends;
+    # no caps at all: the argument is left out, as a caller would
+    v = common.parse_sx(io)
+    if v[0] == 0 and not v[1][2] and c.get('transferer') is None and not c['prev']:
+        want = sorted((k, s_) for k, s_ in v[1][1] if s_)
+        caps = {cname(k): x for k, x in c['caps']}
+        dist = distributor(c)
+        r = common.call_impl(lambda: dist.evaluate(py_votes(c['votes']), c['n'], max_seats=caps) if caps
+                             else dist.evaluate(py_votes(c['votes']), c['n']), 10)
+        if r[0] == 'ok':
+            got = sorted((cnum(k), s_) for k, s_ in r[1].items() if s_)
+            if got != want:
+                c['_class'] = 'evaluate'
+                return 'evaluate() seats %s, the count-by-count run of next_count seats %s' % (got, want)
+        elif r[1] != common.E['TIMEOUT']:
+            c['_class'] = 'evaluate'
+            return 'evaluate() raises %s, the count-by-count run of next_count seats %s' % (r[2], want)
     return None
 
 
@@ -245,6 +262,10 @@ def gen(rng, count, selector_only=False):
         else:
             caps = [[k, rng.randint(1, 3)] for k in cs]
             n = rng.randint(1, sum(v for _, v in caps))
+            if rng.random() < 0.4:
+                # caps for some candidates only (possibly none: max_seats left out) - the others are unbounded
+                caps = [kv for kv in caps if rng.random() < 0.4]
+                n = rng.randint(1, max(len(cs), 2))
         yield dict(unit='stv', cfg=cfg, votes=votes, n=n, prev=[], caps=caps)
 
 
@@ -349,6 +370,9 @@ def gen_boundary(rng, count, selector_only=False):
         else:
             caps = [[k, rng.randint(1, 2)] for k in cs]
             n = rng.randint(1, sum(v for _, v in caps))
+            if rng.random() < 0.4:
+                caps = [kv for kv in caps if rng.random() < 0.4]
+                n = rng.randint(1, max(len(cs), 2))
         made += 1
         yield dict(unit='stv', cfg=cfg, votes=votes, n=n, prev=[], caps=caps)
 
